@@ -75,7 +75,7 @@ def _line(img, p, q):
             y0 += sy
 
 
-def voronoi_image(rng, ncells=20, clean=True, px_per_cell=None, min_ridge=9, min_angle_deg=25, tries=400):
+def voronoi_image(rng, ncells=20, clean=True, px_per_cell=None, min_ridge=9, min_angle_deg=25, tries=400, lumen=0):
     """returns (uint8 image with frame, info). info: cells (site ids), adjacency pairs with an interior junction, border"""
     px = px_per_cell or float(rng.uniform(35, 90))
     for _ in range(tries):
@@ -134,8 +134,36 @@ def voronoi_image(rng, ncells=20, clean=True, px_per_cell=None, min_ridge=9, min
                 break
         if not ok:
             continue
+        lumen_cells = set()
+        if lumen:
+            # a lumen: a connected cluster of interior cells whose common walls are not drawn (one enclosed region many
+            # times larger than a cell)
+            nb = {c: set() for c in keep}
+            interior = set(keep)
+            for (p, q) in ridges.values():
+                if p in keepset and q in keepset:
+                    nb[p].add(q)
+                    nb[q].add(p)
+                else:
+                    interior.discard(p)
+                    interior.discard(q)
+            if not interior:
+                continue
+            c0 = pts[sorted(interior)].mean(axis=0)
+            start = min(sorted(interior), key=lambda i: np.hypot(*(pts[i] - c0)))
+            lumen_cells, frontier = {start}, [start]
+            while frontier and len(lumen_cells) < lumen:
+                x = frontier.pop(0)
+                for y in sorted(nb[x]):
+                    if y in interior and y not in lumen_cells and len(lumen_cells) < lumen:
+                        lumen_cells.add(y)
+                        frontier.append(y)
+            if len(lumen_cells) < lumen:
+                continue
         img = np.zeros((H + 2, W + 2), np.uint8)
-        for r in ridges:
+        for r, (p, q) in ridges.items():
+            if p in lumen_cells and q in lumen_cells:
+                continue
             a, b = tuple(r)
             _line(img, V[a] + 1, V[b] + 1)
         if clean:
@@ -172,7 +200,8 @@ def voronoi_image(rng, ncells=20, clean=True, px_per_cell=None, min_ridge=9, min
         border = {c for c in keep if any((p == c and q not in keepset) or (q == c and p not in keepset)
                                          for (p, q) in ridges.values())}
         info = {"cells": sorted(keep), "internal_pairs": internal, "border": border, "sites": {c: pts[c] + 1 for c in keep},
-                "n_junctions3": sum(1 for v, cs in jcells.items() if len(cs) >= 3), "shape": img.shape, "px": px}
+                "n_junctions3": sum(1 for v, cs in jcells.items() if len(cs) >= 3), "shape": img.shape, "px": px,
+                "lumen": sorted(lumen_cells)}
         return (img * 255).astype(np.uint8), info
     raise RuntimeError("no raster generated")
 
